@@ -66,10 +66,24 @@ def collect_units(crate, derives):
     return units
 
 
+def is_warning_push(c):
+    """the pushed diagnostic is built by Diagnostic::warning(..) (directly or through builder methods on it): it does not
+    make has_error() true, so it cannot justify a None."""
+    a = H.strip_refs(c['args'][0]) if c.get('args') else {}
+    for _ in range(4):
+        if a.get('k') == 'MCall':
+            a = H.strip_refs(a['recv'])
+            continue
+        break
+    return a.get('k') == 'Call' and (H.callee(a) or a.get('def') or '').endswith('Diagnostic::warning')
+
+
 def pushes_in(crate, root):
     out = []
     for c in H.calls_in(root, enter_closures=False):
         if c.get('k') == 'MCall' and c.get('m') == 'push' and 'diagnostic::Diagnostics' in (crate.ty(c['recv'], adjusted=True) or crate.ty(c['recv']) or ''):
+            if is_warning_push(c):
+                continue
             out.append(c)
     return out
 
@@ -311,6 +325,11 @@ class Analysis:
             return
         if k == 'Path' and e.get('res') == 'local':
             srcs = H.origins(u.fn, e)
+            # a mutable local is also what later assignments make it: `res = None` after a push is a None origin of its own
+            if depth < 6:
+                for a in walk(u.body, enter_closures=False):
+                    if a.get('k') == 'Assign' and H.strip_refs(a['l']).get('k') == 'Path' and H.strip_refs(a['l']).get('hid') == e.get('hid'):
+                        self.classify_src_value(u, a['r'], kind, a['r'], depth + 1)
             for o in srcs:
                 if o is e or o.get('k') == 'Bind':
                     site = H.binding_sites(u.fn).get((o if o.get('k') == 'Bind' else e).get('hid'), {})
